@@ -27,10 +27,15 @@ Definition has_ret (evs : list event) : bool :=
   existsb (fun e => match e with ECloseRet _ _ => true | _ => false end) evs.
 Lemma has_ret_app a b : has_ret (a ++ b) = has_ret a || has_ret b.
 Proof. apply existsb_app. Qed.
+Lemma stuck_ev_app a b : stuck_ev (a ++ b) = stuck_ev a || stuck_ev b.
+Proof. apply existsb_app. Qed.
+Lemma dop_results_app a b : dop_results (a ++ b) = dop_results a ++ dop_results b.
+Proof. apply flat_map_app. Qed.
+
 
 (* ---------- the invariant (over the fields it needs) ---------- *)
 
-Definition InvF (closed once cancel dead : bool) (next : nat) (evs : list event) : Prop :=
+Definition InvF (closed once cancel dead stuck : bool) (dops : list dop) (next : nat) (evs : list event) : Prop :=
   n_disc evs = (if once then 1 else 0)
   /\ closed = once
   /\ n_first evs = n_disc evs
@@ -38,60 +43,105 @@ Definition InvF (closed once cancel dead : bool) (next : nat) (evs : list event)
   /\ scan evs = (true, closed || cancel, None)
   /\ handled evs = seq 0 next
   /\ recovered evs = panics evs
-  /\ (has_ret evs = true -> once = true).
+  /\ (has_ret evs = true -> once = true)
+  /\ stuck = false /\ stuck_ev evs = false
+  /\ forallb guarded dops = true
+  /\ dop_results evs = (if once then map res_of dops else []).
 
 Definition Inv (s : cst) (evs : list event) : Prop :=
-  InvF (c_closed s) (c_once s) (c_cancel s) (c_died s) (c_next s) evs.
+  InvF (c_closed s) (c_once s) (c_cancel s) (c_died s) (c_stuck s) (c_dops s) (c_next s) evs.
 
-Lemma Inv_init : Inv cinit [].
-Proof. unfold Inv, InvF. simpl. repeat split; try reflexivity. discriminate. Qed.
+Lemma Inv_init dops : forallb guarded dops = true -> Inv (cinit_d dops) [].
+Proof. intros Hg. unfold Inv, InvF. simpl. repeat split; try reflexivity; try assumption. discriminate. Qed.
 
 (* events that none of the projections looks at *)
 Definition neutral (e : event) : bool :=
   match e with
-  | EWRes _ _ | ELoopExit | ECwSkip _ => true
+  | EWRes _ _ | ELoopExit | ECwSkip _ | EDop _ _ => true
   | _ => false
   end.
 
 Ltac inv_app H :=
   let H1 := fresh "H1" in let H2 := fresh "H2" in let H3 := fresh "H3" in let H4 := fresh "H4" in
   let H5 := fresh "H5" in let H6 := fresh "H6" in let H7 := fresh "H7" in let H8 := fresh "H8" in
-  let H9 := fresh "H9" in
-  destruct H as (H1 & H2 & H3 & H4 & H5 & H6 & H7 & H8 & H9);
+  let H9 := fresh "H9" in let H10 := fresh "H10" in let H11 := fresh "H11" in let H12 := fresh "H12" in
+  let H13 := fresh "H13" in
+  destruct H as (H1 & H2 & H3 & H4 & H5 & H6 & H7 & H8 & H9 & H10 & H11 & H12 & H13);
   unfold InvF;
-  rewrite n_disc_app, n_first_app, died_app, scan_app, handled_app, recovered_app, panics_app, has_ret_app, H6.
+  rewrite n_disc_app, n_first_app, died_app, scan_app, handled_app, recovered_app, panics_app, has_ret_app,
+          stuck_ev_app, dop_results_app, H6.
 
-Lemma InvF_neutral1 closed once cancel dead next evs e :
-  InvF closed once cancel dead next evs -> neutral e = true -> InvF closed once cancel dead next (evs ++ [e]).
+Lemma InvF_neutral1 closed once cancel dead stuck dops next evs e :
+  neutral e = true -> (forall d r, e <> EDop d r) ->
+  InvF closed once cancel dead stuck dops next evs -> InvF closed once cancel dead stuck dops next (evs ++ [e]).
 Proof.
-  intros H He. inv_app H.
-  destruct e as [| |t r|t|t b|t r|i h|i| |]; try discriminate; simpl;
+  intros He Hnd H. inv_app H.
+  destruct e as [| |d r| |t r|t|t b|t r|i h|i| |]; try discriminate; simpl;
     rewrite ?Nat.add_0_r, ?app_nil_r, ?orb_false_r; repeat split; auto.
+  exfalso. eapply Hnd; reflexivity.
 Qed.
 
-Lemma InvF_neutral closed once cancel dead next evs es :
-  InvF closed once cancel dead next evs -> forallb neutral es = true -> InvF closed once cancel dead next (evs ++ es).
+Definition neutral0 (e : event) : bool :=
+  neutral e && match e with EDop _ _ => false | _ => true end.
+
+Lemma InvF_neutral closed once cancel dead stuck dops next evs es :
+  InvF closed once cancel dead stuck dops next evs -> forallb neutral0 es = true ->
+  InvF closed once cancel dead stuck dops next (evs ++ es).
 Proof.
   intros H. induction es as [|e es IH] using rev_ind; intros Hn; [now rewrite app_nil_r|].
   rewrite forallb_app in Hn. apply andb_true_iff in Hn. destruct Hn as [Hn He]. simpl in He.
-  rewrite andb_true_r in He. specialize (IH Hn). rewrite app_assoc. now apply InvF_neutral1.
+  rewrite andb_true_r in He. specialize (IH Hn). rewrite app_assoc.
+  unfold neutral0 in He. apply andb_true_iff in He. destruct He as [He1 He2].
+  apply InvF_neutral1; [assumption| |assumption]. intros d r ->. discriminate.
 Qed.
 
 (* a closeKnown that finds the once flag set *)
-Lemma InvF_already closed cancel dead next evs t :
-  InvF closed true cancel dead next evs -> InvF closed true cancel dead next (evs ++ [ECloseRet t CAlready]).
+Lemma InvF_already closed cancel dead stuck dops next evs t :
+  InvF closed true cancel dead stuck dops next evs ->
+  InvF closed true cancel dead stuck dops next (evs ++ [ECloseRet t CAlready]).
 Proof.
   intros H. inv_app H. simpl. rewrite ?Nat.add_0_r, ?app_nil_r, ?orb_false_r. repeat split; auto.
 Qed.
 
-(* closeKnown with the once guard *)
+(* the calls of a guarded handler while Closed(c) is already true: all answered, none re-enters *)
+Lemma run_dops_guarded ds : forallb guarded ds = true ->
+  run_dops true ds = (map (fun d => EDop d (res_of d)) ds, false).
+Proof.
+  induction ds as [|d ds IH]; intros Hg; [reflexivity|].
+  simpl in Hg. apply andb_true_iff in Hg. destruct Hg as [Hd Hg].
+  simpl. rewrite (IH Hg). destruct d; try discriminate; reflexivity.
+Qed.
+
+Lemma dops_events_proj ds :
+  let D := map (fun d => EDop d (res_of d)) ds in
+  n_disc D = 0 /\ n_first D = 0 /\ died D = false /\ handled D = [] /\ recovered D = [] /\ panics D = []
+  /\ has_ret D = false /\ stuck_ev D = false /\ dop_results D = map res_of ds
+  /\ (forall ok c, fold_left scan_step D (ok, c, None) = (ok, c, None)).
+Proof.
+  induction ds as [|d ds IH]; cbv zeta in *; [repeat split; reflexivity|].
+  destruct IH as (I1 & I2 & I3 & I4 & I5 & I6 & I7 & I8 & I9 & I10).
+  unfold n_disc, n_first, died, handled, recovered, panics, has_ret, stuck_ev, dop_results in *. simpl.
+  repeat split; auto. now rewrite I9.
+Qed.
+
+(* closeKnown with the once guard, cancel first, guarded handler *)
 Lemma close_preserves t s evs :
   Inv s evs -> Inv (fst (do_close impl_cfg t s)) (evs ++ snd (do_close impl_cfg t s)).
 Proof.
   intros H. unfold do_close. simpl. rewrite orb_false_r. destruct (c_once s) eqn:Ho; simpl.
   - unfold Inv in *. rewrite Ho in *. now apply InvF_already.
-  - unfold Inv in *. simpl. rewrite Ho in H. inv_app H. subst. simpl.
-    rewrite H4, H7, H8. simpl. rewrite ?app_nil_r.
+  - assert (Hg : forallb guarded (c_dops s) = true) by (unfold Inv, InvF in H; tauto).
+    rewrite (run_dops_guarded _ Hg). simpl.
+    destruct (dops_events_proj (c_dops s)) as (I1 & I2 & I3 & I4 & I5 & I6 & I7 & I8 & I9 & I10).
+    cbv zeta in *.
+    unfold Inv in *. simpl. rewrite Ho in H.
+    change (EDisc :: map (fun d => EDop d (res_of d)) (c_dops s) ++ [ECloseRet t CFirst])
+      with ([EDisc] ++ map (fun d => EDop d (res_of d)) (c_dops s) ++ [ECloseRet t CFirst]).
+    inv_app H.
+    rewrite !n_disc_app, !n_first_app, !died_app, !handled_app, !recovered_app, !panics_app, !has_ret_app,
+            !stuck_ev_app, !dop_results_app, !fold_left_app, I1, I2, I3, I4, I5, I6, I7, I8, I9.
+    subst. simpl. rewrite I10. simpl.
+    rewrite H4, H7, H8, H11, H13. simpl. rewrite ?app_nil_r.
     repeat split; auto; unfold n_first, n_disc in *; simpl; lia.
 Qed.
 
@@ -99,16 +149,16 @@ Qed.
 Lemma quiet_preserves s evs s' es :
   Inv s evs ->
   c_closed s' = c_closed s -> c_once s' = c_once s -> c_cancel s' = c_cancel s ->
-  c_died s' = c_died s -> c_next s' = c_next s ->
-  forallb neutral es = true -> Inv s' (evs ++ es).
+  c_died s' = c_died s -> c_next s' = c_next s -> c_stuck s' = c_stuck s -> c_dops s' = c_dops s ->
+  forallb neutral0 es = true -> Inv s' (evs ++ es).
 Proof.
-  intros H E1 E2 E5 E3 E4 Hn. unfold Inv. rewrite E1, E2, E3, E4, E5. now apply InvF_neutral.
+  intros H E1 E2 E5 E3 E4 E6 E7 Hn. unfold Inv. rewrite E1, E2, E3, E4, E5, E6, E7. now apply InvF_neutral.
 Qed.
 
-Lemma Inv_alive s evs : Inv s evs -> c_died s = false.
-Proof. unfold Inv, InvF. tauto. Qed.
+Lemma Inv_alive s evs : Inv s evs -> c_died s || c_stuck s = false.
+Proof. unfold Inv, InvF. intros (_ & _ & _ & _ & -> & _ & _ & _ & _ & -> & _). reflexivity. Qed.
 
-Lemma alive_live f s : c_died s = false -> alive f s = f s.
+Lemma alive_live f s : c_died s || c_stuck s = false -> alive f s = f s.
 Proof. unfold alive. now intros ->. Qed.
 
 Ltac live H :=
@@ -130,7 +180,7 @@ Proof.
   intros H. unfold a_wdo. live H.
   destruct (get_reg t s); try (simpl; rewrite app_nil_r; assumption).
   destruct (seen_closed s) eqn:Hc; [|destruct (c_broken s)]; simpl;
-    (eapply quiet_preserves; [exact H| | | | | |]; reflexivity).
+    (eapply quiet_preserves; [exact H| | | | | | | |]; reflexivity).
 Qed.
 
 Lemma set_reg_Inv t r s evs : Inv s evs -> Inv (set_reg t r s) evs.
@@ -142,13 +192,13 @@ Proof.
   destruct (get_reg t s); try (simpl; rewrite app_nil_r; assumption).
   pose proof (close_preserves t (set_reg t CIdle s) evs (set_reg_Inv _ _ _ _ H)) as Hcl.
   destruct (do_close impl_cfg t (set_reg t CIdle s)) as [s1 e1]. simpl in *.
-  rewrite app_assoc. eapply quiet_preserves; [exact Hcl| | | | | |]; reflexivity.
+  rewrite app_assoc. eapply quiet_preserves; [exact Hcl| | | | | | | |]; reflexivity.
 Qed.
 
 Lemma cwcheck_preserves t s evs : Inv s evs -> Inv (fst (a_cwcheck t s)) (evs ++ snd (a_cwcheck t s)).
 Proof.
   intros H. unfold a_cwcheck. live H. destruct (seen_closed s) eqn:Hc; simpl.
-  - eapply quiet_preserves; [exact H| | | | | |]; reflexivity.
+  - eapply quiet_preserves; [exact H| | | | | | | |]; reflexivity.
   - rewrite app_nil_r. exact H.
 Qed.
 
@@ -184,12 +234,12 @@ Qed.
 
 Lemma loop_exit_preserves s evs :
   Inv s evs ->
-  let s0 := mkC (c_closed s) (c_once s) (c_cancel s) (c_broken s) true (c_died s) (c_next s) (c_regs s) in
+  let s0 := mkC (c_dops s) (c_stuck s) (c_closed s) (c_once s) (c_cancel s) (c_broken s) true (c_died s) (c_next s) (c_regs s) in
   Inv (fst (do_close impl_cfg 0 s0)) (evs ++ ELoopExit :: snd (do_close impl_cfg 0 s0)).
 Proof.
   intros H s0.
   assert (H0 : Inv s0 (evs ++ [ELoopExit])).
-  { eapply quiet_preserves; [exact H| | | | | |]; reflexivity. }
+  { eapply quiet_preserves; [exact H| | | | | | | |]; reflexivity. }
   pose proof (close_preserves 0 s0 _ H0) as Hcl. now rewrite <- app_assoc in Hcl.
 Qed.
 
@@ -263,13 +313,14 @@ Proof.
   - now apply cancel_preserves.
 Qed.
 
-Theorem invariant script gs sched :
-  let r := run (program impl_cfg script gs) sched cinit in
+Theorem invariant script gs dops sched :
+  forallb guarded dops = true ->
+  let r := run (program impl_cfg script gs) sched (cinit_d dops) in
   Inv (final_state r) (events r).
 Proof.
-  cbv zeta. unfold final_state, events.
+  intros Hg. cbv zeta. unfold final_state, events.
   exact (trace_inv_all_schedules Inv (program impl_cfg script gs)
-           (fun a Ha => action_preserves a (in_program script gs a Ha)) sched cinit [] Inv_init).
+           (fun a Ha => action_preserves a (in_program script gs a Ha)) sched (cinit_d dops) [] (Inv_init dops Hg)).
 Qed.
 
 (* ---------- reading the scan ---------- *)
@@ -304,9 +355,9 @@ Proof.
     { destruct ok0; [reflexivity|]. pose proof (scan_step_false c0 p0 e) as Hf. rewrite H in Hf. discriminate. }
     subst ok0. specialize (IH c0 p0 eq_refl). unfold has_closed. rewrite existsb_app. fold (has_closed evs). rewrite <- IH.
     unfold scan_step in H. destruct p0 as [t0|].
-    + destruct e as [| |t r|t|t b|t r|i h|i| |]; try discriminate; destruct r; try discriminate.
+    + destruct e as [| |d0 r0| |t r|t|t b|t r|i h|i| |]; try discriminate; destruct r; try discriminate.
       inversion H; subst. simpl. now rewrite orb_false_r.
-    + destruct e as [| |t r|t|t b|t r|i h|i| |]; inversion H; subst; simpl; rewrite ?orb_false_r, ?orb_true_r; reflexivity.
+    + destruct e as [| |d0 r0| |t r|t|t b|t r|i h|i| |]; inversion H; subst; simpl; rewrite ?orb_false_r, ?orb_true_r; reflexivity.
 Qed.
 
 Theorem scan_sound evs c :
@@ -332,7 +383,7 @@ Proof.
   cbn [fold_left] in H.
   assert (He : ok_of (scan_step (true, true, Some t) e) = true).
   { apply (fold_ok_start post'). rewrite H. reflexivity. }
-  destruct e as [| |t1 r|t1|t1 b1|t1 r|i h|i| |]; try discriminate He.
+  destruct e as [| |d0 r0| |t1 r|t1|t1 b1|t1 r|i h|i| |]; try discriminate He.
   destruct r; try discriminate He. unfold scan_step, ok_of in He. simpl in He.
   apply Nat.eqb_eq in He. subst t1. eauto.
 Qed.
@@ -344,8 +395,9 @@ Proof.
   intros H. unfold has_ret. apply existsb_exists. exists (ECloseRet t r0). split; [assumption|reflexivity].
 Qed.
 
-Theorem teardown_exactly_once script gs sched :
-  let r := run (program impl_cfg script gs) sched cinit in
+Theorem teardown_exactly_once script gs dops sched :
+  forallb guarded dops = true ->
+  let r := run (program impl_cfg script gs) sched (cinit_d dops) in
   let s := final_state r in
   let evs := events r in
   n_disc evs <= 1
@@ -353,47 +405,140 @@ Theorem teardown_exactly_once script gs sched :
   /\ n_first evs = n_disc evs
   /\ ((exists t r0, In (ECloseRet t r0) evs) -> n_disc evs = 1 /\ c_closed s = true).
 Proof.
-  cbv zeta. pose proof (invariant script gs sched) as H. cbv zeta in H.
-  unfold Inv, InvF in H. destruct H as (H1 & H2 & H3 & H4 & H5 & H6 & H7 & H8 & H9).
+  intros Hg. cbv zeta. pose proof (invariant script gs dops sched Hg) as H. cbv zeta in H.
+  unfold Inv, InvF in H. destruct H as (H1 & H2 & H3 & H4 & H5 & H6 & H7 & H8 & H9 & _).
   rewrite H2. repeat split; auto.
   - rewrite H1. destruct (c_once _); lia.
   - destruct H as [t [r0 Hin]]. rewrite H1, (H9 (has_ret_in _ _ _ Hin)). reflexivity.
   - destruct H as [t [r0 Hin]]. exact (H9 (has_ret_in _ _ _ Hin)).
 Qed.
 
-Theorem writes_after_close_fail script gs sched :
-  let r := run (program impl_cfg script gs) sched cinit in
+Theorem writes_after_close_fail script gs dops sched :
+  forallb guarded dops = true ->
+  let r := run (program impl_cfg script gs) sched (cinit_d dops) in
   let evs := events r in
   forall pre t b post, evs = pre ++ EWStart t b :: post ->
     b = has_closed pre /\ (b = true -> exists post', post = EWRes t WClosed :: post').
 Proof.
-  cbv zeta. pose proof (invariant script gs sched) as H. cbv zeta in H.
+  intros Hg. cbv zeta. pose proof (invariant script gs dops sched Hg) as H. cbv zeta in H.
   unfold Inv, InvF in H. destruct H as (_ & _ & _ & _ & _ & H6 & _).
   exact (scan_sound _ _ H6).
 Qed.
 
-Theorem panic_contained script gs sched :
-  let r := run (program impl_cfg script gs) sched cinit in
+Theorem panic_contained script gs dops sched :
+  forallb guarded dops = true ->
+  let r := run (program impl_cfg script gs) sched (cinit_d dops) in
   let s := final_state r in
   let evs := events r in
   died evs = false /\ c_died s = false
   /\ handled evs = seq 0 (c_next s)
   /\ recovered evs = panics evs.
 Proof.
-  cbv zeta. pose proof (invariant script gs sched) as H. cbv zeta in H.
+  intros Hg. cbv zeta. pose proof (invariant script gs dops sched Hg) as H. cbv zeta in H.
   unfold Inv, InvF in H. tauto.
 Qed.
+
+(* the handler behaviour installed at the start never changes *)
+Lemma do_close_dops c t s : c_dops (fst (do_close c t s)) = c_dops s.
+Proof.
+  unfold do_close. destruct (_ || _); [reflexivity|].
+  destruct (run_dops _ _) as [e st]. destruct st; reflexivity.
+Qed.
+
+Lemma alive_dops f s : (forall s0, c_dops (fst (f s0)) = c_dops s0) -> c_dops (fst (alive f s)) = c_dops s.
+Proof. intros H. unfold alive. destruct (_ || _); [reflexivity|apply H]. Qed.
+
+Lemma action_dops a : is_action a -> forall s, c_dops (fst (a s)) = c_dops s.
+Proof.
+  intros Ha s. destruct Ha; apply alive_dops; intros s0.
+  - destruct (c_loop_done s0); [reflexivity|]. destruct (seen_closed s0).
+    + pose proof (do_close_dops impl_cfg 0
+        (mkC (c_dops s0) (c_stuck s0) (c_closed s0) (c_once s0) (c_cancel s0) (c_broken s0) true (c_died s0) (c_next s0) (c_regs s0))) as Hc.
+      destruct (do_close impl_cfg 0 _) as [s1 e1]. exact Hc.
+    + destruct h; reflexivity.
+  - destruct (c_loop_done s0); [reflexivity|].
+    pose proof (do_close_dops impl_cfg 0
+      (mkC (c_dops s0) (c_stuck s0) (c_closed s0) (c_once s0) (c_cancel s0) (c_broken s0) true (c_died s0) (c_next s0) (c_regs s0))) as Hc.
+    destruct (do_close impl_cfg 0 _) as [s1 e1]. exact Hc.
+  - apply do_close_dops.
+  - destruct (seen_closed s0); reflexivity.
+  - destruct (get_reg t s0); try reflexivity. destruct (seen_closed s0); [reflexivity|]. destruct (c_broken s0); reflexivity.
+  - destruct (get_reg t s0); try reflexivity.
+    pose proof (do_close_dops impl_cfg t (set_reg t CIdle s0)) as Hc.
+    destruct (do_close impl_cfg t (set_reg t CIdle s0)) as [s1 e1]. exact Hc.
+  - destruct (seen_closed s0); reflexivity.
+  - destruct (get_reg t s0); try reflexivity. destruct (seen_closed s0); [reflexivity|].
+    destruct (c_broken s0); [apply do_close_dops|reflexivity].
+  - destruct (get_reg t s0); try reflexivity. apply (do_close_dops impl_cfg t (set_reg t CIdle s0)).
+  - reflexivity.
+  - reflexivity.
+Qed.
+
+Lemma dops_const script gs dops sched :
+  let r := run (program impl_cfg script gs) sched (cinit_d dops) in
+  c_dops (final_state r) = dops.
+Proof.
+  cbv zeta. unfold final_state.
+  apply (inv_all_schedules (fun s => c_dops s = dops) (program impl_cfg script gs)); [|reflexivity].
+  intros a Ha s Hs. rewrite (action_dops a (in_program script gs a Ha)). exact Hs.
+Qed.
+
+(* what Disconnected() does with its own connection from inside the teardown: every such call returns
+   (ErrClosedConn, or skipped by its own "if !Closed" guard), none re-enters the once-body, so the
+   teardown finishes: nothing is ever stuck and every closeKnown call returns *)
+Theorem teardown_reentrancy_safe script gs dops sched :
+  forallb guarded dops = true ->
+  let r := run (program impl_cfg script gs) sched (cinit_d dops) in
+  let s := final_state r in
+  let evs := events r in
+  c_stuck s = false /\ stuck_ev evs = false
+  /\ dop_results evs = (if c_closed s then map res_of dops else [])
+  /\ n_first evs = n_disc evs.
+Proof.
+  intros Hg. cbv zeta. pose proof (invariant script gs dops sched Hg) as H. cbv zeta in H.
+  unfold Inv, InvF in H.
+  destruct H as (H1 & H2 & H3 & H4 & H5 & H6 & H7 & H8 & H9 & H10 & H11 & H12 & H13).
+  repeat split; auto. rewrite H2.
+  pose proof (dops_const script gs dops sched) as Hd. cbv zeta in Hd.
+  now rewrite Hd in H13.
+Qed.
+
+(* model facts about re-entering closeOnce.Do from inside its own body *)
+
+(* cancel AFTER the teardown (defer c.cancelCtx() at the top of the once-body): Closed(c) is still false
+   while Disconnected() runs, a CloseWith / write from there reaches the closed socket, fails and calls
+   Close(): the teardown never finishes, Close never returns, every later closer is stuck too *)
+Theorem with_cancel_after_teardown_reentrant_close_never_returns :
+  exists script gs dops sched,
+    forallb guarded dops = true /\
+    let r := run (program (mkCfg true true false false) script gs) sched (cinit_d dops) in
+    c_stuck (final_state r) = true /\ stuck_ev (events r) = true
+    /\ has_ret (events r) = false              (* no Close call ever returned *)
+    /\ dop_results (events r) = [].
+Proof.
+  exists [], [GClose; GClose], [DCloseWith], [1; 2; 0]. split; [reflexivity|].
+  vm_compute. repeat split; reflexivity.
+Qed.
+
+(* an UNGUARDED Close() from Disconnected() on its own connection blocks on sync.Once in the code as it
+   is, too (observed on the real code: the outer Close never returns); handlers must guard it *)
+Theorem unguarded_close_from_teardown_never_returns :
+  exists script gs sched,
+    let r := run (program impl_cfg script gs) sched (cinit_d [DWrite; DRawClose]) in
+    c_stuck (final_state r) = true /\ has_ret (events r) = false
+    /\ dop_results (events r) = [DClosed].
+Proof. exists [], [GClose], [1; 0]. vm_compute. repeat split; reflexivity. Qed.
 
 (* ---------- the two guards are needed (model facts) ---------- *)
 
 Theorem without_once_teardown_runs_twice :
   exists script gs sched,
-    n_disc (events (run (program (mkCfg false true false) script gs) sched cinit)) = 2.
+    n_disc (events (run (program (mkCfg false true false true) script gs) sched cinit)) = 2.
 Proof. exists [], [GClose; GClose], [1; 2]. vm_compute. reflexivity. Qed.
 
 Theorem without_recover_the_process_dies :
   exists script gs sched,
-    let r := run (program (mkCfg true false false) script gs) sched cinit in
+    let r := run (program (mkCfg true false false true) script gs) sched cinit in
     died (events r) = true /\ c_died (final_state r) = true
     /\ handled (events r) = [0; 1]          (* the third packet is never handled *)
     /\ n_disc (events r) = 0.               (* and the session is never torn down *)
@@ -434,7 +579,7 @@ Proof. vm_compute. reflexivity. Qed.
    after a parent cancel no close path ever runs the teardown *)
 Theorem with_early_exit_teardown_never_runs :
   exists script gs sched,
-    let r := run (program (mkCfg true true true) script gs) sched cinit in
+    let r := run (program (mkCfg true true true true) script gs) sched cinit in
     complete (remaining r) = true /\ n_disc (events r) = 0 /\ c_closed (final_state r) = false.
 Proof. exists [], [GCancel; GClose; GClose], [1; 2; 3; 0]. vm_compute. repeat split; reflexivity. Qed.
 
